@@ -24,6 +24,7 @@ REQUIRED_COUNTERS = ["c05_instances_fully_explored", "c05_candidates_checked", "
 MIN_NONTRIVIAL = {"quick": 150, "thorough": 2500}
 WORKERS = {"quick": 14, "thorough": 16}
 BUDGET_S = {"quick": 600, "thorough": 3300}
+THOROUGH_ROUNDS = 2
 
 
 def cases(tier, seed):
